@@ -8,6 +8,7 @@ import (
 	"github.com/z7zmey/php-parser/pkg/token"
 
 	"verif/astx"
+	"verif/harness"
 )
 
 // TokenReport is the result of CheckTokens.
@@ -99,6 +100,9 @@ var leafTokenField = map[string]string{
 // additional tiling / classification / leaf-value clauses.
 func CheckTokens(src []byte, root ast.Vertex, errFree bool, flexibleHeredoc bool) TokenReport {
 	var rep TokenReport
+	// token values alias the buffer that was handed to the parser; "the source" is what that buffer
+	// held before the parse (a library that writes into it changes both sides of a naive comparison)
+	src = harness.Pristine(src)
 	lm := NewLines(src)
 	rep.Lines = lm.Count()
 	rep.NonLF = bytes.IndexByte(src, '\r') >= 0
